@@ -306,16 +306,16 @@ Print Assumptions html_template_atomic_comment.
    and every state:
    (1) if a region [p,q) starts at a position p at which the call looks for a delimiter (TemplateAll.looked: in text;
        after whitespace and attribute-name bytes; at the start of an attribute value or inside a quoted value; in raw
-       text reached over plain bytes, regions and non-matching "</"+letters; in a comment, CDATA section, doctype, bogus
-       comment "<?…" / "<!…" or end tag, after bytes that are neither a delimiter start nor the construct's terminator),
+       text reached over plain bytes, regions and non-matching "</"+letters; in plaintext content; in a comment, CDATA
+       section, doctype, bogus comment "<?…" / "<!…" / "</"+non-letter or end tag, after bytes that are neither a
+       delimiter start nor the construct's terminator),
        then the call returns ONE token that starts at or before p, contains the whole region and has HasTemplate() = true;
    (2) if the returned token has HasTemplate() = true, then a region lies inside the bytes the call consumed.
    Positions at which the lexer does not look (so (1) does not apply): the letters it jumps over after '<' or "</" in
    raw text, script "<!--" sections and svg / math content; the bytes of "<!--", "<![CDATA[", "<?" and of the terminators
    "-->", "]]>", "?>"; the blank after "<!doctype"; whitespace, '=' and the closers inside a tag; the first two bytes of
    "</", "<!", "<?" and the first letter of a tag name.  Not in [looked] although the lexer looks there: positions
-   inside svg / math / xml content, plaintext content and bogus comments "</"+non-letter (covered by (2), by
-   html_template_elsewhere_fixed_witnesses and by the Go oracle). *)
+   inside svg / math / xml content (covered by (2), by html_template_elsewhere_fixed_witnesses and by the Go oracle). *)
 Theorem html_template_exact :
   forall c d l, cfg_ok c -> tb c <> [] -> html_inv d l ->
     (forall p q, looked c d l p -> is_region c d p q ->
